@@ -336,11 +336,66 @@ fn cli_options(ctx: &mut Ctx) {
     ctx.scratch.discard(&root);
 }
 
+/// Real commands (default shell) that are heavy on the pipes: much more than a pipe buffer on
+/// stderr, on stdout, on both at once; a command that reads its standard input; output that is not
+/// valid UTF-8 or full of NUL bytes; a command that closes its stdout early. Every mode must come
+/// back with success or a reported error.
+const HEAVY_COMMANDS: [&str; 9] = [
+    "head -c 300000 /dev/zero | tr '\\0' 'e' >&2",
+    "head -c 300000 /dev/zero | tr '\\0' 'o'",
+    "(head -c 200000 /dev/zero | tr '\\0' 'o'; head -c 200000 /dev/zero | tr '\\0' 'e' >&2)",
+    "(head -c 200000 /dev/zero | tr '\\0' 'e' >&2; head -c 200000 /dev/zero | tr '\\0' 'o')",
+    "cat",
+    "head -c 100000 /dev/zero",
+    "printf '\\377\\376\\n'",
+    "exec 1>&-; head -c 100000 /dev/zero | tr '\\0' 'e' >&2; exit 3",
+    "yes warning: something | head -n 20000 >&2; echo done",
+];
+
+fn heavy_commands(ctx: &mut Ctx) {
+    let mut k = 0u64;
+    for (ci, cmd) in HEAVY_COMMANDS.iter().enumerate() {
+        for mode in [Mode::Build, Mode::InMemoryBuild, Mode::Verify] {
+            for threads in [1usize, 4] {
+                k += 1;
+                if !ctx.claim(7_000_000 + k) {
+                    continue;
+                }
+                let mut files = Files::new();
+                files.insert("h.txt.txtpp".into(), format!("head\n-TXTPP#run {cmd}\ntail\n").into_bytes());
+                files.insert("other.txt.txtpp".into(), b"other\n".to_vec());
+                let root = ctx.scratch.fresh();
+                materialize(&root, &files, &[]);
+                let cfg = RunCfg { base: root.clone(), inputs: vec![".".into()], mode: mode.clone(), threads, recursive: false, trailing: true, shell: String::new() };
+                let o = run_inproc(&cfg, Spec::Natural { delay: None }, Some(&root), false);
+                ctx.evals += 1;
+                ctx.count("heavy_command_runs", 1);
+                ctx.cover("heavy_commands", &ci.to_string());
+                let cj = json!({"kind": "heavy-command", "command": cmd, "mode": crate::run::mode_name(&mode), "threads": threads});
+                ctx.distinct.insert(crate::util::hash_str(&cj.to_string()));
+                let name = crate::run::mode_name(&mode);
+                match &o.verdict {
+                    Verdict::Ok | Verdict::Err(_) => {}
+                    Verdict::Watchdog => ctx.inconclusive("watchdog expired (heavy command)"),
+                    Verdict::StuckTask => ctx.violation(format!("C18:hang:worker-stuck:{name}"), format!("the worker running `{cmd}` showed no progress for 20 s (the command itself finishes in milliseconds when its pipes are drained); the coordinator waits for its result forever"), cj.clone()),
+                    Verdict::MainPanic(m) => ctx.violation("C18:panic:main:threads=n".to_string(), format!("the thread calling Txtpp::run panicked: {m}"), cj.clone()),
+                    other => ctx.violation(format!("C18:hang:{name}"), format!("run with command `{cmd}` ended as {}", other.short()), cj.clone()),
+                }
+                if o.trace.panicked_tasks > 0 || (!o.panics.is_empty() && !matches!(o.verdict, Verdict::MainPanic(_))) {
+                    ctx.violation(format!("C18:panic:worker:{name}"), format!("a txtpp thread panicked while running `{cmd}`: {:?}", o.panics), cj);
+                }
+                ctx.scratch.discard(&root);
+            }
+        }
+    }
+}
+
 fn run(ctx: &mut Ctx) {
     let mut r = StdRng::seed_from_u64(ctx.shard_seed());
     if ctx.shard == 0 {
         cli_options(ctx);
     }
+    heavy_commands(ctx);
     let n = ctx.tier.pick(6000, 150_000);
     for i in 0..n {
         if !ctx.time_left() || ctx.violations.len() > 30 {
@@ -357,6 +412,11 @@ fn run(ctx: &mut Ctx) {
 fn replay(ctx: &mut Ctx, v: &Value) {
     if v["kind"].as_str() == Some("cli") {
         cli_options(ctx);
+        return;
+    }
+    if v["kind"].as_str() == Some("heavy-command") {
+        // the claim files of a replay directory are fresh: the whole block runs again
+        heavy_commands(ctx);
         return;
     }
     check(ctx, &Case::from(v));
